@@ -3,10 +3,16 @@ package main
 import (
 	"encoding/json"
 	"fmt"
+	"go/ast"
+	"go/parser"
+	"go/token"
 	"os"
+	osexec "os/exec"
 	"path/filepath"
+	"regexp"
 	"sort"
 	"strings"
+	"sync"
 	"time"
 )
 
@@ -75,6 +81,150 @@ func (m *Mutant) apply() (map[string][]byte, error) {
 	return map[string][]byte{path: []byte(ns)}, nil
 }
 
+// enclosingFuncs returns the contract keys of the functions whose source text differs between the
+// original and the mutated file (a mutant only affects the obligations of the function it edits:
+// callers are checked against the callee's contract, not its body).
+func enclosingFuncs(path string, orig, mutated []byte) []string {
+	keys := map[string]bool{}
+	collect := func(src []byte) map[string]string {
+		out := map[string]string{}
+		fset := token.NewFileSet()
+		f, err := parser.ParseFile(fset, path, src, 0)
+		if err != nil {
+			return out
+		}
+		for _, d := range f.Decls {
+			fd, ok := d.(*ast.FuncDecl)
+			if !ok {
+				continue
+			}
+			key := fd.Name.Name
+			if fd.Recv != nil && len(fd.Recv.List) == 1 {
+				t := fd.Recv.List[0].Type
+				star := ""
+				if se, ok := t.(*ast.StarExpr); ok {
+					star = "*"
+					t = se.X
+				}
+				if ie, ok := t.(*ast.IndexExpr); ok {
+					t = ie.X
+				}
+				if id, ok := t.(*ast.Ident); ok {
+					key = "(" + star + id.Name + ")." + fd.Name.Name
+				}
+			}
+			out[key] = string(src[fset.Position(fd.Pos()).Offset:fset.Position(fd.End()).Offset])
+		}
+		return out
+	}
+	o, m := collect(orig), collect(mutated)
+	for k, v := range m {
+		if o[k] != v {
+			keys[k] = true
+		}
+	}
+	for k := range o {
+		if _, ok := m[k]; !ok {
+			keys[k] = true
+		}
+	}
+	var out []string
+	for k := range keys {
+		out = append(out, k)
+	}
+	sort.Strings(out)
+	return out
+}
+
+// mutantMain runs one mutant (in its own process: sorts and terms of different programs must not mix).
+// exit status: 0 killed, 1 survived, 3 engine error.
+func mutantMain(args []string) int {
+	if len(args) < 2 {
+		return 2
+	}
+	dir, name := args[0], args[1]
+	id := filepath.Base(dir)
+	cfg := findProp(id)
+	if cfg == nil {
+		fmt.Printf("  %-8s %-40s no property config\n", id, name)
+		return 1
+	}
+	ms, err := loadMutants(dir)
+	if err != nil {
+		fmt.Println("selftest:", err)
+		return 2
+	}
+	stopOnFail = true
+	crossCheck = true
+	for _, m := range ms {
+		if m.Name != name {
+			continue
+		}
+		ov, err := m.apply()
+		if err != nil {
+			fmt.Println("selftest:", err)
+			return 1
+		}
+		work := filepath.Join(verifRoot, ".work", "mutant-"+id+"-"+sanitizeFile(m.Name))
+		defer os.RemoveAll(work)
+		mcfg := *cfg
+		mcfg.Pkgs = []string{"./" + filepath.Dir(m.File)}
+		path := filepath.Join(repoRoot, m.File)
+		orig, _ := os.ReadFile(path)
+		if fs := enclosingFuncs(path, orig, ov[path]); len(fs) > 0 {
+			var alts []string
+			for _, f := range fs {
+				alts = append(alts, regexp.QuoteMeta(f))
+			}
+			mcfg.Funcs = "^(" + strings.Join(alts, "|") + ")$"
+			mcfg.re = regexp.MustCompile(mcfg.Funcs)
+		}
+		r := runProp(&mcfg, 10*time.Second, ov, work, false, 4)
+		if r.loadErr != nil {
+			fmt.Printf("  %-8s %-40s DOES NOT COMPILE: %v\n", id, m.Name, firstLineOf(r.loadErr.Error()))
+			return 1
+		}
+		var failed []string
+		for _, s := range r.sums {
+			if s.Status == "engine-error" {
+				fmt.Printf("  %-8s %-40s ENGINE ERROR (solver/encoding disagreement) on %s: %s\n", id, m.Name, s.Ob, s.Worst.Detail)
+				return 3
+			}
+		}
+		for _, s := range r.sums {
+			if s.Status != "proved" && s.Status != "covered" && s.Status != "skipped" {
+				failed = append(failed, s.Ob+"("+s.Status+")")
+			}
+		}
+		for k := range r.notVerified {
+			failed = append(failed, k+"#verifiable")
+		}
+		sort.Strings(failed)
+		if len(failed) == 0 {
+			fmt.Printf("  %-8s %-40s SURVIVED  (%s) [functions %s]\n", id, m.Name, m.Why, mcfg.Funcs)
+			return 1
+		}
+		hit := m.Expect == ""
+		for _, f := range failed {
+			if m.Expect != "" && strings.Contains(f, m.Expect) {
+				hit = true
+			}
+		}
+		tag := "killed"
+		if !hit {
+			tag = "killed (not by the expected obligation " + m.Expect + ")"
+		}
+		show := failed
+		if len(show) > 4 {
+			show = append(show[:4:4], fmt.Sprintf("... +%d", len(failed)-4))
+		}
+		fmt.Printf("  %-8s %-40s %s: %s  [%.0fs]\n", id, m.Name, tag, strings.Join(show, " "), r.wall)
+		return 0
+	}
+	fmt.Printf("  %-8s %-40s not found\n", id, name)
+	return 1
+}
+
 func selftestMain(args []string) int {
 	only := ""
 	if len(args) > 0 {
@@ -86,17 +236,13 @@ func selftestMain(args []string) int {
 	}
 	dirs, _ := filepath.Glob(filepath.Join(root, "*"))
 	sort.Strings(dirs)
-	survived := 0
-	total := 0
-	stopOnFail = true
+	survived, total, engine := 0, 0, 0
+	self, _ := os.Executable()
+	type job struct{ dir, name string }
+	var jobs []job
 	for _, d := range dirs {
 		id := filepath.Base(d)
 		if only != "" && only != id {
-			continue
-		}
-		cfg := findProp(id)
-		if cfg == nil {
-			fmt.Printf("selftest: no property config for %s\n", id)
 			continue
 		}
 		ms, err := loadMutants(d)
@@ -105,56 +251,49 @@ func selftestMain(args []string) int {
 			return 2
 		}
 		for _, m := range ms {
-			total++
-			ov, err := m.apply()
-			if err != nil {
-				fmt.Println("selftest:", err)
-				survived++
-				continue
-			}
-			work := filepath.Join(verifRoot, ".work", "mutant-"+id)
-			// only the package that contains the mutated file is re-verified
-			mcfg := *cfg
-			mcfg.Pkgs = []string{"./" + filepath.Dir(m.File)}
-			r := runProp(&mcfg, 10*time.Second, ov, work, false, 6)
-			if r.loadErr != nil {
-				fmt.Printf("  %-8s %-40s DOES NOT COMPILE: %v\n", id, m.Name, firstLineOf(r.loadErr.Error()))
-				survived++
-				continue
-			}
-			var failed []string
-			for _, s := range r.sums {
-				if s.Status != "proved" && s.Status != "covered" && s.Status != "skipped" {
-					failed = append(failed, s.Ob+"("+s.Status+")")
-				}
-			}
-			for k := range r.notVerified {
-				failed = append(failed, k+"#verifiable")
-			}
-			sort.Strings(failed)
-			if len(failed) == 0 {
-				survived++
-				fmt.Printf("  %-8s %-40s SURVIVED  (%s)\n", id, m.Name, m.Why)
-				continue
-			}
-			hit := m.Expect == ""
-			for _, f := range failed {
-				if m.Expect != "" && strings.Contains(f, m.Expect) {
-					hit = true
-				}
-			}
-			tag := "killed"
-			if !hit {
-				tag = "killed (not by the expected obligation " + m.Expect + ")"
-			}
-			show := failed
-			if len(show) > 4 {
-				show = append(show[:4:4], fmt.Sprintf("... +%d", len(failed)-4))
-			}
-			fmt.Printf("  %-8s %-40s %s: %s  [%.0fs]\n", id, m.Name, tag, strings.Join(show, " "), r.wall)
+			jobs = append(jobs, job{d, m.Name})
 		}
 	}
-	fmt.Printf("selftest: %d mutants, %d survived\n", total, survived)
+	// three mutants at a time (each one runs 4 queries x up to 4 solver processes)
+	type result struct {
+		out  string
+		code int
+	}
+	results := make([]result, len(jobs))
+	sem := make(chan struct{}, 3)
+	var wg sync.WaitGroup
+	for i, j := range jobs {
+		wg.Add(1)
+		sem <- struct{}{}
+		go func(i int, j job) {
+			defer wg.Done()
+			defer func() { <-sem }()
+			cmd := osexec.Command(self, "mutant", j.dir, j.name)
+			out, err := cmd.CombinedOutput()
+			code := 0
+			if err != nil {
+				code = 1
+				if ee, ok := err.(*osexec.ExitError); ok {
+					code = ee.ExitCode()
+				}
+			}
+			results[i] = result{string(out), code}
+		}(i, j)
+	}
+	wg.Wait()
+	for _, r := range results {
+		total++
+		fmt.Print(r.out)
+		switch r.code {
+		case 0:
+		case 3:
+			engine++
+			survived++
+		default:
+			survived++
+		}
+	}
+	fmt.Printf("selftest: %d mutants, %d not killed (%d engine errors)\n", total, survived, engine)
 	if survived > 0 {
 		return 1
 	}
